@@ -291,22 +291,34 @@ Definition ptokens (p:pool) : list N := map snd (pq p) ++ wjob_toks (wjob p) ++ 
    implements the same schedule around the real io_service).  It changes the loop state only via [step]. *)
 Inductive op :=
 | OP (k:N) | OPE (k:N) | OT (k:N) (d:Z) | OU (k:N) (d:Z) | OCT (k:N) | OI (k:N) (f:nat) | OO (k:N) (f:nat)
-| OCF (f:nat) | OCL (f:nat) | OW (f:nat) | OR (f:nat) | OF (f:nat) | OD (f:nat) | OK (f:nat) | OA (d:N) | OX.
-Record osfd := mkOs { closedA : bool; hup : bool; inq : bool; full : bool;
-                      nval : option (bool*bool) (* poll reactor: interest it silently dropped after POLLNVAL *) }.
-Definition os0 := mkOs false false false false None.
-Inductive skind := SP | SPE | ST (dl:N) | SI (f:nat) | SO (f:nat).
+| OCF (f:nat) | OCL (f:nat) | OW (f:nat) | OR (f:nat) | OF (f:nat) | OD (f:nat) | OK (f:nat) | OA (d:N) | OX
+| ORS (k:N) (f:nat) | OWS (k:N) (f:nat) (* stream_socket::async_read_some / async_write_some with user handler k *)
+| ORA (k:N) (f:nat) (n:N) | OWA (k:N) (f:nat) (n:N) (* stream_socket::async_read / async_write of n bytes (reader_all / writer_all) *).
+Record osfd := mkOs { closedA : bool; hup : bool; inq : bool (* = 0 < inb *); full : bool;
+                      nval : option (bool*bool) (* poll reactor: interest it silently dropped after POLLNVAL *) ;
+                      inb : N (* bytes the peer wrote that side A has not read yet *) }.
+Definition os0 := mkOs false false false false None 0.
+Inductive skind := SP | SPE | ST (dl:N) | SI (f:nat) | SO (f:nat) | SRS (f:nat) | SWS (f:nat) | SRA (f:nat) (n:N) | SWA (f:nat) (n:N).
 Inductive rkind := REpoll | RPoll | RSelect.
 Record sim := mkSim { ms : st; os : list osfd; phases : list (list op); bodies : list (N * list op); stage : nat;
-                      tmeta : list (N * (bool * N)); sout : list (N*skind); rk : rkind; pickhi : bool; mark : nat; pickall : bool }.
-Definition set_ms (x:sim) v := mkSim v (os x) (phases x) (bodies x) (stage x) (tmeta x) (sout x) (rk x) (pickhi x) (mark x) (pickall x).
-Definition set_os (x:sim) v := mkSim (ms x) v (phases x) (bodies x) (stage x) (tmeta x) (sout x) (rk x) (pickhi x) (mark x) (pickall x).
-Definition set_phases (x:sim) v := mkSim (ms x) (os x) v (bodies x) (stage x) (tmeta x) (sout x) (rk x) (pickhi x) (mark x) (pickall x).
-Definition set_stage (x:sim) v := mkSim (ms x) (os x) (phases x) (bodies x) v (tmeta x) (sout x) (rk x) (pickhi x) (mark x) (pickall x).
-Definition set_tmeta (x:sim) v := mkSim (ms x) (os x) (phases x) (bodies x) (stage x) v (sout x) (rk x) (pickhi x) (mark x) (pickall x).
-Definition set_mark (x:sim) v := mkSim (ms x) (os x) (phases x) (bodies x) (stage x) (tmeta x) (sout x) (rk x) (pickhi x) v (pickall x).
-Definition set_sout (x:sim) v := mkSim (ms x) (os x) (phases x) (bodies x) (stage x) (tmeta x) v (rk x) (pickhi x) (mark x) (pickall x).
+                      tmeta : list (N * (bool * N)); sout : list (N*skind); rk : rkind; pickhi : bool; mark : nat; pickall : bool;
+                      (* composite operations: Layer A token (internal wait / immediate post) -> (user handler, is-read, device) *)
+                      comp : list (N * (N * bool * nat * bool)) (* ... , all-variant *);
+                      cprog : list (N * (N * N)) (* all-variants: user handler -> (bytes still wanted, bytes transferred) *);
+                      cimm : list (N * N) (* immediate completions: post token -> code number the user handler gets *);
+                      olog : list (N*N*N) (* user-visible completions: handler, code number, time *);
+                      nextw : N (* next internal token *) }.
+Definition set_ms (x:sim) v := mkSim v (os x) (phases x) (bodies x) (stage x) (tmeta x) (sout x) (rk x) (pickhi x) (mark x) (pickall x) (comp x) (cprog x) (cimm x) (olog x) (nextw x).
+Definition set_os (x:sim) v := mkSim (ms x) v (phases x) (bodies x) (stage x) (tmeta x) (sout x) (rk x) (pickhi x) (mark x) (pickall x) (comp x) (cprog x) (cimm x) (olog x) (nextw x).
+Definition set_phases (x:sim) v := mkSim (ms x) (os x) v (bodies x) (stage x) (tmeta x) (sout x) (rk x) (pickhi x) (mark x) (pickall x) (comp x) (cprog x) (cimm x) (olog x) (nextw x).
+Definition set_stage (x:sim) v := mkSim (ms x) (os x) (phases x) (bodies x) v (tmeta x) (sout x) (rk x) (pickhi x) (mark x) (pickall x) (comp x) (cprog x) (cimm x) (olog x) (nextw x).
+Definition set_tmeta (x:sim) v := mkSim (ms x) (os x) (phases x) (bodies x) (stage x) v (sout x) (rk x) (pickhi x) (mark x) (pickall x) (comp x) (cprog x) (cimm x) (olog x) (nextw x).
+Definition set_mark (x:sim) v := mkSim (ms x) (os x) (phases x) (bodies x) (stage x) (tmeta x) (sout x) (rk x) (pickhi x) v (pickall x) (comp x) (cprog x) (cimm x) (olog x) (nextw x).
+Definition set_sout (x:sim) v := mkSim (ms x) (os x) (phases x) (bodies x) (stage x) (tmeta x) v (rk x) (pickhi x) (mark x) (pickall x) (comp x) (cprog x) (cimm x) (olog x) (nextw x).
 
+Definition set_comp (x:sim) c i n := mkSim (ms x) (os x) (phases x) (bodies x) (stage x) (tmeta x) (sout x) (rk x) (pickhi x) (mark x) (pickall x) c (cprog x) i (olog x) n.
+Definition set_cprog (x:sim) v := mkSim (ms x) (os x) (phases x) (bodies x) (stage x) (tmeta x) (sout x) (rk x) (pickhi x) (mark x) (pickall x) (comp x) v (cimm x) (olog x) (nextw x).
+Definition set_olog (x:sim) v := mkSim (ms x) (os x) (phases x) (bodies x) (stage x) (tmeta x) (sout x) (rk x) (pickhi x) (mark x) (pickall x) (comp x) (cprog x) (cimm x) v (nextw x).
 Definition stp (l:label) (x:sim) : sim := set_ms x (step l (ms x)).
 Definition os_get (x:sim) (f:nat) : osfd := nth f (os x) os0.
 Fixpoint list_put {A} (l:list A) (i:nat) (v:A) : list A :=
@@ -319,6 +331,51 @@ Definition se_for (x:sim) (fd:Z) : bool :=
 Definition add_sout (k:N) (v:skind) (x:sim) : sim := set_sout x (sout x ++ [(k,v)]).
 Fixpoint assoc {A} (l:list (N*A)) (k:N) : option A :=
   match l with [] => None | (a,v)::r => if N.eqb a k then Some v else assoc r k end.
+
+(* ---- composite operations built on set_io_event (booster/lib/aio/src/stream_socket.cpp: async_read_some, async_write_some,
+   reader_some, writer_some).  Code numbers of the user-visible log: 0 ok, 1 canceled, 2 select_failed, 3 EBADF, 4 eof, 5 EPIPE *)
+Definition codenum (c:code) : N := match c with Ok => 0 | Canceled => 1 | SelFailed => 2 | EBadf => 3 | SelErr => 3 end.
+(* read_some / write_some on device f with room for [want] bytes: None = would block, Some (0,n) = n > 0 bytes transferred,
+   Some (c,0) = fails with code c (3 EBADF on a closed device, 4 eof, 5 EPIPE) *)
+Definition XFER_BUF : N := 8192.
+Definition try_io (x:sim) (isrd:bool) (f:nat) (want:N) : option (N*N) * sim :=
+  let o := os_get x f in
+  if closedA o then (Some (3,0), x)
+  else if isrd then
+    if inq o then let got := N.min (inb o) want in
+                  let left := inb o - got in
+                  (Some (0,got), os_put x f (mkOs false (hup o) (N.ltb 0 left) (full o) (nval o) left))
+    else if hup o then (Some (4,0), x) else (None, x)
+  else if hup o then (Some (5,0), x) else if full o then (None, x) else (Some (0,want), x).
+Definition reg_comp (t k:N) (isrd:bool) (f:nat) (al:bool) (im:option N) (x:sim) : sim :=
+  set_comp x ((t,(k,isrd,f,al)) :: comp x) (match im with Some n => (t,n) :: cimm x | None => cimm x end) (nextw x + 1).
+Definition comp_wait (k:N) (isrd:bool) (f:nat) (al:bool) (x:sim) : sim :=
+  let t := nextw x in
+  stp (LSetIo (devfd x f) (if isrd then DIn else DOut) t (se_for x (devfd x f))) (reg_comp t k isrd f al None x).
+(* code number of the user-visible log for the all-variants: code + 10 * (bytes transferred + 1) *)
+Definition allcode (c cnt:N) : N := c + 10 * (cnt + 1).
+Definition prog_of (x:sim) (k:N) : N*N := match assoc (cprog x) k with Some p => p | None => (0,0) end.
+(* one transfer attempt of user handler k: inl n = the operation completes with log code n, inr x' = it has to wait (again) *)
+Definition xfer_step (k:N) (isrd:bool) (f:nat) (al:bool) (x:sim) : N * bool * sim :=
+  if al then
+    let (need, cnt) := prog_of x k in
+    let (r, x1) := try_io x isrd f need in
+    match r with
+    | Some (0, got) => let x2 := set_cprog x1 ((k,(need - got, cnt + got)) :: cprog x1) in
+                       if N.eqb (need - got) 0 then (allcode 0 (cnt + got), true, x2) else (0, false, x2)
+    | Some (c, _) => (allcode c cnt, true, x1)
+    | None => (0, false, x1)
+    end
+  else
+    let (r, x1) := try_io x isrd f (if isrd then XFER_BUF else 1) in
+    match r with Some (c, _) => (c, true, x1) | None => (0, false, x1) end.
+(* start of the operation: complete at once through post(h,e,n), or wait *)
+Definition comp_start (k:N) (isrd:bool) (f:nat) (al:bool) (x:sim) : sim :=
+  match xfer_step k isrd f al x with
+  | (n, true, x1) => let t := nextw x1 in stp (LPost t Ok) (reg_comp t k isrd f al (Some n) x1)
+  | (_, false, x1) => comp_wait k isrd f al x1
+  end.
+Definition add_olog (h n:N) (x:sim) : sim := set_olog x (olog x ++ [(h, n, clock (ms x))]).
 
 Definition do_op (o:op) (x:sim) : sim :=
   match o with
@@ -338,19 +395,23 @@ Definition do_op (o:op) (x:sim) : sim :=
   | OCF f => stp (LCancelIo (devfd x f)) x
   | OCL f => let o := os_get x f in
              if closedA o then x
-             else os_put (stp (LCancelIo (Z.of_nat f)) x) f (mkOs true (hup o) (inq o) (full o) (nval o))
+             else os_put (stp (LCancelIo (Z.of_nat f)) x) f (mkOs true (hup o) (inq o) (full o) (nval o) (inb o))
   | OW f => let o := os_get x f in
-            if closedA o || hup o then x else os_put x f (mkOs false false true (full o) (nval o))
+            if closedA o || hup o then x else os_put x f (mkOs false false true (full o) (nval o) (inb o + 1))
   | OR f => let o := os_get x f in
-            if closedA o then x else os_put x f (mkOs false (hup o) false (full o) (nval o))
+            if closedA o then x else os_put x f (mkOs false (hup o) false (full o) (nval o) 0)
   | OF f => let o := os_get x f in
-            if closedA o || hup o then x else os_put x f (mkOs false false (inq o) true (nval o))
+            if closedA o || hup o then x else os_put x f (mkOs false false (inq o) true (nval o) (inb o))
   | OD f => let o := os_get x f in
-            if hup o then x else os_put x f (mkOs (closedA o) false (inq o) false (nval o))
+            if hup o then x else os_put x f (mkOs (closedA o) false (inq o) false (nval o) (inb o))
   | OK f => let o := os_get x f in
-            if hup o then x else os_put x f (mkOs (closedA o) true (inq o) false (nval o))
+            if hup o then x else os_put x f (mkOs (closedA o) true (inq o) false (nval o) (inb o))
   | OA d => stp (LTick d) x
   | OX => stp LStop x
+  | ORS k f => comp_start k true f false (add_sout k (SRS f) x)
+  | OWS k f => comp_start k false f false (add_sout k (SWS f) x)
+  | ORA k f n => comp_start k true f true (set_cprog (add_sout k (SRA f n) x) ((k,(n,0)) :: cprog x))
+  | OWA k f n => comp_start k false f true (set_cprog (add_sout k (SWA f n) x) ((k,(n,0)) :: cprog x))
   end.
 Definition do_ops (ops:list op) (x:sim) : sim := fold_left (fun a o => do_op o a) ops x.
 Definition body_of (x:sim) (h:N) : list op := match assoc (bodies x) h with Some b => b | None => [] end.
@@ -372,7 +433,7 @@ Definition closed_registered (x:sim) (f:nat) : bool :=
 Definition mark_nval (x:sim) (f:nat) : sim :=
   if closed_registered x f then
     let o := os_get x f in let c := cur_of x f in
-    os_put x f (mkOs (closedA o) (hup o) (inq o) (full o) (Some (cin c, cout c)))
+    os_put x f (mkOs (closedA o) (hup o) (inq o) (full o) (Some (cin c, cout c)) (inb o))
   else x.
 Definition choose (x:sim) (l:list nat) : option nat :=
   if pickhi x then match rev l with a::_ => Some a | [] => None end else match l with a::_ => Some a | [] => None end.
@@ -418,6 +479,27 @@ Definition poll_phase (x0:sim) : sim :=
     | None => if intr then stp (LPollEnd [] true) x else stp (LPollEnd [] false) (nothing_ready x)
     end.
 
+(* what the invocation of Layer A handler h with code c does: a plain handler is logged and runs its body; the internal handler
+   of a composite operation completes the user handler (immediate post: with the stored code; failed wait: with the error;
+   successful wait: tries the transfer again and completes, or waits again when it would still block) *)
+Definition complete (k n:N) (x:sim) : sim := do_ops (body_of x k) (add_olog k n x).
+Definition after_exec (h:N) (c:code) (x:sim) : sim :=
+  match assoc (comp x) h with
+  | None => complete h (codenum c) x
+  | Some (k,isrd,f,al) =>
+      match assoc (cimm x) h with
+      | Some n => complete k n x
+      | None =>
+          match c with
+          | Ok => match xfer_step k isrd f al x with
+                  | (n, true, x1) => complete k n x1
+                  | (_, false, x1) => comp_wait k isrd f al x1
+                  end
+          | _ => complete k (if al then allcode (codenum c) (snd (prog_of x k)) else codenum c) x
+          end
+      end
+  end.
+
 Fixpoint run_sim (fuel:nat) (x:sim) : sim * bool :=
   match fuel with
   | O => (x,false)
@@ -427,7 +509,7 @@ Fixpoint run_sim (fuel:nat) (x:sim) : sim * bool :=
         let e := running (ms x) in
         let se := match e with Some (Setter fd _ _) => se_for x fd | _ => false end in
         let x1 := stp (LExec se) x in
-        let x2 := match e with Some (Run h _) => do_ops (body_of x h) x1 | _ => x1 end in
+        let x2 := match e with Some (Run h c) => after_exec h c x1 | _ => x1 end in
         run_sim n (stp LDone x2)
     | Executed => run_sim n (stp LDone x)
     | Poll => run_sim n (poll_phase x)
@@ -446,7 +528,7 @@ Fixpoint run_sim (fuel:nat) (x:sim) : sim * bool :=
 
 Definition START_MS : N := 100000.
 Definition sim0 (r:rkind) (hi al:bool) (nfd:nat) (ph:list (list op)) (bd:list (N*list op)) : sim :=
-  mkSim (set_clock st0 START_MS) (repeat os0 nfd) ph bd 0%nat [] [] r hi 0%nat al.
+  mkSim (set_clock st0 START_MS) (repeat os0 nfd) ph bd 0%nat [] [] r hi 0%nat al [] [] [] [] 1000000.
 Definition run_script (fuel:nat) (r:rkind) (hi al:bool) (nfd:nat) (ph:list (list op)) (bd:list (N*list op)) : sim * bool :=
   let x := sim0 r hi al nfd ph bd in
   let x1 := match phases x with ops::rest => do_ops ops (set_phases x rest) | [] => x end in
@@ -455,8 +537,9 @@ Definition run_script (fuel:nat) (r:rkind) (hi al:bool) (nfd:nat) (ph:list (list
 (* ------------------------------------------------------------------------------------------------ *)
 (* Layer B for the pool: one worker, gate jobs; the schedule harness/C17_pool.cpp enforces with condition variables *)
 Inductive qop := QP (k:N) (kd:N) (* kd: 0 normal, 1 throws std::exception, 2 throws int, 3 gate *) | QC (k:N) | QG (k:N) | QS.
-Record psim := mkPsim { pp : pool; pids : list (N*N); gclosed : list N; pkinds : list (N*N); pcres : list (N*N) }.
-Definition psim0 : psim := mkPsim pool0 [] [] [] [].
+Record psim := mkPsim { pp : pool; pids : list (N*N); gclosed : list N; pkinds : list (N*N); pcres : list (N*N);
+                        pstopn : option N (* number of jobs dequeued when stop() was first called *) }.
+Definition psim0 : psim := mkPsim pool0 [] [] [] [] None.
 Definition nmem (k:N) (l:list N) : bool := existsb (N.eqb k) l.
 Fixpoint settle (fuel:nat) (x:psim) : psim :=
   match fuel with
@@ -466,12 +549,12 @@ Fixpoint settle (fuel:nat) (x:psim) : psim :=
     | Some j =>
         if nmem j (gclosed x) then x
         else let exc := match assoc (pkinds x) j with Some 1 => true | Some 2 => true | _ => false end in
-             settle n (mkPsim (fst (pstep (PWorkerRun 0 exc) (pp x))) (pids x) (gclosed x) (pkinds x) (pcres x))
+             settle n (mkPsim (fst (pstep (PWorkerRun 0 exc) (pp x))) (pids x) (gclosed x) (pkinds x) (pcres x) (pstopn x))
     | None =>
         if w_exited (pp x) 0 then x
         else let (p',r) := pstep (PWorkerLock 0) (pp x) in
-             if N.eqb r 1 then settle n (mkPsim p' (pids x) (gclosed x) (pkinds x) (pcres x))
-             else mkPsim p' (pids x) (gclosed x) (pkinds x) (pcres x)
+             if N.eqb r 1 then settle n (mkPsim p' (pids x) (gclosed x) (pkinds x) (pcres x) (pstopn x))
+             else mkPsim p' (pids x) (gclosed x) (pkinds x) (pcres x) (pstopn x)
     end
   end.
 Definition do_qop (fuel:nat) (o:qop) (x:psim) : psim :=
@@ -479,17 +562,21 @@ Definition do_qop (fuel:nat) (o:qop) (x:psim) : psim :=
   | QP k kd =>
       if pfresh k (pp x) then
         let (p',id) := pstep (PPost k) (pp x) in
-        settle fuel (mkPsim p' ((k,id) :: pids x) (if N.eqb kd 3 then k :: gclosed x else gclosed x) ((k,kd) :: pkinds x) (pcres x))
+        settle fuel (mkPsim p' ((k,id) :: pids x) (if N.eqb kd 3 then k :: gclosed x else gclosed x) ((k,kd) :: pkinds x) (pcres x) (pstopn x))
       else x
   | QC k =>
       match assoc (pids x) k with
       | Some id => let (p',r) := pstep (PCancel id) (pp x) in
-                   settle fuel (mkPsim p' (pids x) (gclosed x) (pkinds x) (pcres x ++ [(k,r)]))
+                   settle fuel (mkPsim p' (pids x) (gclosed x) (pkinds x) (pcres x ++ [(k,r)]) (pstopn x))
       | None => x
       end
-  | QG k => settle fuel (mkPsim (pp x) (pids x) (filter (fun g => negb (N.eqb g k)) (gclosed x)) (pkinds x) (pcres x))
-  | QS => settle fuel (mkPsim (fst (pstep PStop (pp x))) (pids x) (gclosed x) (pkinds x) (pcres x))
+  | QG k => settle fuel (mkPsim (pp x) (pids x) (filter (fun g => negb (N.eqb g k)) (gclosed x)) (pkinds x) (pcres x) (pstopn x))
+  | QS => (* stop(): when a gate job is running, stop() blocks in join until the gate is opened (settle stops at the gate);
+             only the first stop counts (the harness never calls stop() twice) *)
+          if shut (pp x) then x else
+          let started := N.of_nat (length (plog (pp x)) + length (wjob_toks (wjob (pp x)))) in
+          settle fuel (mkPsim (fst (pstep PStop (pp x))) (pids x) (gclosed x) (pkinds x) (pcres x) (Some started))
   end.
 Definition run_pool_script (fuel:nat) (ops:list qop) : psim :=
   let x := fold_left (fun a o => do_qop fuel o a) ops psim0 in
-  settle fuel (mkPsim (pp x) (pids x) [] (pkinds x) (pcres x)).
+  settle fuel (mkPsim (pp x) (pids x) [] (pkinds x) (pcres x) (pstopn x)).
